@@ -16,7 +16,9 @@ RULE = ('histories on the real Bus with up to 4 raw scripted clients: connect+He
         'is adopted where the statement leaves it open), AddMatch / RemoveMatch (rules from the C12 generator; a third of '
         'the broadcast messages are derived from one of the rules with one constrained place perturbed), and bursts of 1-4 in-flight messages: unicast '
         'messages of all four types addressed to a unique name, an owned well-known name, an unowned name or the bus '
-        'itself, with the sender field absent, true or forged, in either byte order, and broadcast signals; the bytes of a '
+        'itself (arbitrary calls, and real questions to the bus driver - GetNameOwner, ListNames, a second Hello, '
+        'RequestName of invalid names, RemoveMatch of a rule never added ... - each answered exactly once and GetNameOwner '
+        'in agreement with the model), with the sender field absent, true or forged, in either byte order, and broadcast signals; the bytes of a '
         'burst sit in per-client queues and the bus reads them in a drawn interleaving of (client, chunk size) choices. '
         'interleave: every order in which the bus can read 2-3 in-flight messages of 2-3 clients at message granularity, '
         'exhaustive; random: Hypothesis-drawn histories with byte-level chunking. oracle (model of clients, name owners '
@@ -215,6 +217,28 @@ def run_history(case):
                 c = clients[ci]
                 m = b['msg']
                 dk = b['dest']
+                if b.get('busq'):
+                    # a real question to the bus driver; its name argument is resolved against the live history
+                    qname, argk, argi = b['busq']
+                    target = None
+                    if argk == 'wk':
+                        target = WK[argi % 2]
+                    elif argk == 'unique':
+                        target = clients[live[argi % len(live)]].name
+                    elif argk == 'dead':
+                        target = ':1.9999'
+                    elif argk == 'bad':
+                        target = ['', ':1.7', 'no-dot', '.x.y'][argi % 4]
+                    sig, trees = {'GetNameOwner': ('s', [target]), 'NameHasOwner': ('s', [target]),
+                                  'ListQueuedOwners': ('s', [target]), 'ListNames': ('', []), 'GetId': ('', []),
+                                  'Hello': ('', []), 'RequestName': ('su', [target, 4]),
+                                  'ReleaseName': ('s', [target]),
+                                  'RemoveMatch': ('s', ["type='signal',member='NeverAdded%d'" % argi]),
+                                  'GetConnectionUnixUser': ('s', [target])}[qname]
+                    m = {'type': 1, 'path': '/org/freedesktop/DBus', 'interface': BUS, 'member': qname, 'sig': sig,
+                         'trees': trees}
+                    dk = 'bus'
+                    b = dict(b, no_reply=False, busq_target=target)
                 if dk == 'unique':
                     dest = clients[live[b['to'] % len(live)]].name
                 elif dk == 'wk':
@@ -246,7 +270,8 @@ def run_history(case):
                 queues[ci] += raw
                 bounds[ci].append(len(queues[ci]))
                 sent.append({'from': ci, 'type': m['type'], 'fields': f, 'dest': dest, 'serial': serial, 'flags': flags,
-                             'sig': m['sig'], 'trees': m['trees'], 'abstract': dict(m, destination=dest)})
+                             'sig': m['sig'], 'trees': m['trees'], 'abstract': dict(m, destination=dest),
+                             'busq': b.get('busq'), 'busq_target': b.get('busq_target')})
             # the bus reads the queues in the drawn interleaving
             sched = op[2] or [[0, 100000]]
             k = 0
@@ -350,6 +375,22 @@ def run_history(case):
                            and m['fields'].get(7) in (BUS, None)]
                 if s['type'] == 1 and not (s['flags'] & 1) and len(replies) != 1:
                     out.append(Disc('bus-call.reply-count', '%s: call %r to the bus got %d replies' % (where, s['fields'], len(replies))))
+                elif s.get('busq') and s['busq'][0] in ('GetNameOwner', 'NameHasOwner') and s['busq'][1] in ('wk', 'unique', 'dead') \
+                        and len(replies) == 1:
+                    # the answer agrees with the model of names (the bus answers in arrival order, and a burst holds no
+                    # name changes, so the model at the end of the step is the model at the time of the question)
+                    t = s['busq_target']
+                    holder = clients[owner[t]].name if t in owner else (t if any(clients[x].name == t for x in live) else None)
+                    r = replies[0]
+                    if s['busq'][0] == 'NameHasOwner':
+                        # (the built-in bus does not implement this method: an error reply is an answer too)
+                        if r['type'] == 2 and r['body'] != [holder is not None]:
+                            out.append(Disc('bus-call.NameHasOwner', '%s: %r -> %r, model holder %r' % (where, t, r['body'], holder)))
+                    elif holder is None:
+                        if r['type'] != 3:
+                            out.append(Disc('bus-call.GetNameOwner-of-nobody', '%s: %r -> %r' % (where, t, r['body'])))
+                    elif r['type'] != 2 or r['body'] != [holder]:
+                        out.append(Disc('bus-call.GetNameOwner', '%s: %r -> %r, model %r' % (where, t, r['body'], holder)))
                 for ci in live:
                     leaked = [m for m in clients[ci].inbox if m['fields'].get(6) == BUS]
                     if leaked:
@@ -403,6 +444,8 @@ def classify(case):
                     nt = True
                     labels.append('broadcast_with_rules')
                 labels.append('dest_' + b['dest'])
+                if b.get('busq'):
+                    labels.append('bus_question')
             if len(op[1]) >= 2 and len(op[2] or []) > 1:
                 labels.append('interleaved')
     return nt, sorted(set(labels))
@@ -419,7 +462,14 @@ def burst_msg(draw, rules=None):
     if not near and draw(st.integers(0, 2)) == 0:
         # a body from the full value space (variants, 64-bit integers, empty containers, byte arrays ...)
         m['sig'], m['trees'] = draw(S.typed_values(max_types=3, depth=2))
-    return {'from': draw(st.integers(0, 3)), 'to': draw(st.integers(0, 5)),
+    busq = None
+    if draw(st.integers(0, 7)) == 0:
+        busq = [draw(st.sampled_from(['GetNameOwner', 'GetNameOwner', 'NameHasOwner', 'ListQueuedOwners', 'ListNames', 'GetId',
+                                      'Hello', 'RequestName', 'ReleaseName', 'RemoveMatch', 'GetConnectionUnixUser'])),
+                draw(st.sampled_from(['wk', 'wk', 'unique', 'dead', 'bad'])), draw(st.integers(0, 3))]
+        if busq[0] in ('RequestName', 'ReleaseName') and busq[1] in ('wk', 'unique'):
+            busq[1] = 'bad'        # name changes belong to the own / disown operations (the model follows those)
+    return {'from': draw(st.integers(0, 3)), 'to': draw(st.integers(0, 5)), 'busq': busq,
             'dest': draw(st.sampled_from(['unique', 'unique', 'unique', 'wk', 'wk', 'bus', 'dead', 'none', 'none'])),
             'sender': draw(st.sampled_from(['absent', 'true', 'forged', 'forged', 'forged-wk', 'forged-wk', 'forged-bus'])), 'msg': m,
             'little': draw(st.booleans()), 'no_reply': draw(st.integers(0, 3)) == 0, 'no_auto': draw(st.integers(0, 3)) == 0}
